@@ -51,6 +51,7 @@ ASSUMPTIONS = [
     "underflows to 0.0 at phi = 1 is within 2^-1074 of its exact value)",
 ]
 TRUSTED = ["float -> exact rational via Fraction(float) (exact); tolerance 1e-9 of harness/core.close and of the checker"]
+PARTIAL = ['convergence of the iteration to THE fixed point (second conjunct of C17_full) is not proved; the code returns the T-th Gauss-Seidel iterate from 0.5 and that iterate is what is characterised', 'C17_formula_partial (1 - vertex average of products) holds by definition of the model; the model and the specification share the sweep bookkeeping, so "model = specification" reduces to the C15 identity; the bookkeeping itself is tied to the code only by the correspondence and by C17_others_semantic under cover_okb']
 TECHNIQUE = ("Coq: simulation lemma over the Gauss-Seidel sweeps (model/spec, cached/fresh evaluator, reduced/plain "
              "arithmetic), invariants for the bounds and phi = 0, on top of the C15 cache invariant; verified checker "
              "on the implementation's floats; model/implementation correspondence with logged sweep order")
@@ -164,6 +165,12 @@ def _phis(rng, n, bits=3):
             out.append([f.numerator, f.denominator])
     if n >= 3 and rng.random() < 0.5:
         out[-1] = out[0]  # the same query again after others (stale state shows here)
+    if n >= 2 and bits >= 3 and rng.random() < 0.35:
+        # two DIFFERENT queries that agree to three decimals (a result memoised under a rounded phi is stale for the second)
+        i = rng.randrange(len(out))
+        f = Fraction(out[i][0], out[i][1])
+        g = f + Fraction(1, 4096) if f < 1 else f - Fraction(1, 4096)
+        out.insert(i + 1, [g.numerator, g.denominator])
     return out
 
 
